@@ -234,7 +234,18 @@ func newVirtual(name string) *Timer {
 	return &Timer{seq: ck.seq, name: name}
 }
 
+// inert returns a timer that never fires: during the tear-down of an execution (parked threads
+// leaving through Goexit run deferred code) nothing may arm a REAL timer, whose callback would
+// fire natively in the middle of a later execution.
+func inert() *Timer {
+	c := make(chan Time)
+	return &Timer{C: c, c: nil}
+}
+
 func NewTimer(d Duration) *Timer {
+	if vsched.Aborting() {
+		return inert()
+	}
 	if !vsched.Active() {
 		n := time.NewTimer(d)
 		return &Timer{n: n, C: n.C}
@@ -248,6 +259,9 @@ func NewTimer(d Duration) *Timer {
 }
 
 func AfterFunc(d Duration, f func()) *Timer {
+	if vsched.Aborting() {
+		return inert()
+	}
 	if !vsched.Active() {
 		return &Timer{n: time.AfterFunc(d, f)}
 	}
@@ -302,6 +316,10 @@ type Ticker struct {
 }
 
 func NewTicker(d Duration) *Ticker {
+	if vsched.Aborting() {
+		t := inert()
+		return &Ticker{C: t.C, t: t}
+	}
 	if !vsched.Active() {
 		n := time.NewTicker(d)
 		return &Ticker{n: n, C: n.C}
